@@ -497,8 +497,8 @@ func runC18(c *Ctx) {
 // refStoreObs is the harness's own reference: a Go map keyed by (issuer string, serial string).
 func refStoreObs(p *storePools, ops []sop) []string {
 	type st struct {
-		ents                      map[string]int
-		meta, ext, signer, loc    int
+		ents                   map[string]int
+		meta, ext, signer, loc int
 	}
 	newSt := func() *st { return &st{ents: map[string]int{}} }
 	live, staging := newSt(), newSt()
